@@ -23,6 +23,7 @@ func init() {
 
 func runC05(p *eng.Prog, r *eng.Report, tier string) {
 	c := &cx{p, r, tier}
+	r19ExpiredDeadlineClearedByItsSetter(c, "C05.32")
 	r19WrapPassesThePayloadOn(c, "C05.30")
 	r19FromIndependentOfTo(c, "C05.31")
 	r19CancelledOnlyWhileWaiting(c, "C05.29")
